@@ -274,8 +274,8 @@ def discharge_row(ses, cm, vs, P, blocks, row, label, kind, eps=0, extra=(), sam
     order = sorted(range(len(blocks)), key=lambda k: -len(blocks[k]['iface'] & cols))
     if row.get('robust') and row.get('uset') is not None and row['uset'].kind == 'exp':
         return discharge_expset_row(ses, cm, vs, [blocks[k] for k in order], row, label, sample, core)
-    if row.get('robust') and row.get('uset') is not None and row['uset'].kind == 'mixed' and not eps \
-            and not row['cons'].is_atom():
+    if row.get('robust') and row.get('uset') is not None and not eps and not row['cons'].is_atom() and \
+            (row['uset'].kind == 'mixed' or (row['uset'].kind == 'soc' and row['uset'].n_cones() >= 2)):
         # ball-intersect-polytope sets: cone-pairing relaxation + reformulation-linearisation first (QF_LRA)
         U = row['uset']
         try:
@@ -292,7 +292,7 @@ def discharge_row(ses, cm, vs, P, blocks, row, label, kind, eps=0, extra=(), sam
                 blk = blocks[k]
                 if not blk['cones'] or (cols and not (blk['iface'] & cols)):
                     continue
-                if rlt_block(ses, cm.cp, blk, G2, H2, T2, list(U.names) + aux, viol, label, kind, sample, 20000, Q2) == 'unsat':
+                if rlt_block(ses, cm.cp, blk, G2, H2, T2, list(U.names) + aux, viol, label, kind, sample, 20000, Q2, full_pairing=True) == 'unsat':
                     return 'unsat', None
     for k in order:
         blk = blocks[k]
@@ -497,7 +497,7 @@ def _float_support(rows, viol, keys):
     return sel
 
 
-def _lazy_lra(ses, rows, viol, term, table, cs, neg, timeout_ms, label, rounds=60, batch=150):
+def _lazy_lra(ses, rows, viol, term, table, cs, neg, timeout_ms, label, rounds=80, batch=40, cap=450):
     z3 = z3mod()
     t0 = time.time()
     keys = sorted({k for c, _, _ in rows for k in c} | {k for c, _ in viol for k in c})
@@ -509,6 +509,10 @@ def _lazy_lra(ses, rows, viol, term, table, cs, neg, timeout_ms, label, rounds=6
     for rnd in range(rounds):
         left = timeout_ms / 1000.0 - (time.time() - t0)
         if left <= 1:
+            return 'unknown'
+        if len(active) > cap:
+            # z3's exact simplex does not poll its timer inside a pivot: a sub-system of 770 rows ran 230 s under a 14 s limit.
+            # Beyond the cap the lazy loop gives up (the caller falls back to a separate process under a hard limit).
             return 'unknown'
         sub = [cs[i] for i in sorted(active)]
         res, model = ses.solve(sub + [z3.Or(neg)], timeout_ms=int(min(left, 20) * 1000), tactic=('simplify', 'solve-eqs', 'smt'),
